@@ -301,6 +301,7 @@ def run(rep, tier, seed):
                 for k, row in enumerate(cs["rows"]):
                     stmts.append(f"e{k}<shape> := {enum_lit(row['val'])}"); tags.append(("setup",))
             if form == "match":
+                stmts.append("inq := 7u64"); tags.append(("setup",))      # the outer variable the pair arms 13/14 read / shadow
                 for k, row in enumerate(cs["rows"]):
                     src = f"e{k}" if fam == "enum" else f"s{k}"
                     if fam != "enum":
